@@ -269,7 +269,12 @@ func depthChecks(c *Ctx) {
 			depths = []int{100, 10000, 10001, 12001}
 		}
 		if c.Thorough() {
-			depths = append(depths, 100000, 1000000)
+			depths = append(depths, 100000)
+			if via == "" {
+				// (the chains through a map / list / oneof are built level by level around the
+				// previous payload, which is quadratic in the depth: 10^5 levels is their ceiling)
+				depths = append(depths, 1000000)
+			}
 		}
 		for _, d := range depths {
 			args := []string{"deep", "--type", t, "--depth", fmt.Sprint(d), "--via", via}
